@@ -28,6 +28,7 @@ RULE = ('correspondence: Line::points() vs the extracted model for all lines wit
         'Styled<Line>::pixels() (ordered) and the styled bounding box vs the model for every delta of the grid [-R,R]^2 (R=7/12, i.e. dx,dy in [-2R,2R]) x widths 0..9/12, '
         'all end point pairs in [-3,3]^2 / [-5,5]^2 x 7 widths, random lines of length 10..2000 x widths up to 40. '
         'non-trivial = model result non-empty; distinct = distinct case lines. '
+        'Line::with_delta / delta vs the model on random starts and deltas; search p_line also checks Line::new vs struct literal, delta, with_delta(start, delta) = l, midpoint. '
         'search p_line / p_thick: every clause of the property evaluated in exact i128 arithmetic on the real iterators; p_thick on '
         'every delta of the grid [-R,R]^2 (R=7 quick, 12 thorough) x every width 0..9/12 and on random lines up to 300 long x widths up to 33, plus long wide strokes (length 240..1000 x width 30..64).')
 EXHAUSTIVE = {'quick': False, 'thorough': False}
@@ -88,6 +89,10 @@ def cases(tier, rng):
     # the two extreme corners of the generator range
     yield J('line_walk', -2 ** 20, -2 ** 20, 2 ** 20, 2 ** 20 - 1)
     yield J('line_walk', 2 ** 20, -2 ** 20, -2 ** 20, 1)
+    # Line::with_delta / Line::delta (value oracle)
+    for _ in range(200 if tier == 'quick' else 4000):
+        m = rng.choice([3, 100, 2 ** 19])
+        yield J('line_with_delta', rng.randrange(-m, m + 1), rng.randrange(-m, m + 1), rng.randrange(-m, m + 1), rng.randrange(-m, m + 1))
     # ---- thick lines: Styled<Line>::pixels(), order included; styled bounding box
     RT, WT = (7, 9) if tier == 'quick' else (12, 12)
     for (x1, y1) in [(x, y) for x in range(-2 * RT, 2 * RT + 1) for y in range(-2 * RT, 2 * RT + 1)]:
